@@ -52,3 +52,54 @@ def make_linter(dialect: str, templater: str = "raw", rules: Optional[str] = Non
 
 def viol_tuple(v) -> tuple:
     return (v.rule_code(), v.line_no, v.line_pos, v.desc())
+
+
+def write_ini(dirpath: str, cfg: dict, name: str = ".sqlfluff") -> str:
+    """Write a nested config dict as a .sqlfluff ini file (sections joined by ':')."""
+    import os
+
+    lines = []
+
+    def emit(prefix, d):
+        scalars = {k: v for k, v in d.items() if not isinstance(v, dict)}
+        if scalars or prefix == "sqlfluff":
+            lines.append(f"[{prefix}]")
+            for k, v in scalars.items():
+                lines.append(f"{k} = {v}")
+            lines.append("")
+        for k, v in d.items():
+            if isinstance(v, dict):
+                emit(f"{prefix}:{k}", v)
+
+    core = dict(cfg.get("core") or {})
+    emit("sqlfluff", core)
+    for k, v in cfg.items():
+        if k != "core" and isinstance(v, dict):
+            emit(f"sqlfluff:{k}", v)
+    path = os.path.join(dirpath, name)
+    with open(path, "w", encoding="utf-8") as f:
+        f.write("\n".join(lines) + "\n")
+    return path
+
+
+def config_dict(dialect, templater="raw", rules=None, exclude=None, core=None, sections=None, context=None) -> dict:
+    import copy
+
+    cfg: dict = {"core": {"dialect": dialect, "templater": templater}}
+    if rules is not None:
+        cfg["core"]["rules"] = rules
+    if exclude is not None:
+        cfg["core"]["exclude_rules"] = exclude
+    if core:
+        cfg["core"].update(core)
+    for k, v in (sections or {}).items():
+        if k == "core":
+            cfg["core"].update(v)
+        else:
+            cfg[k] = copy.deepcopy(v)
+    if context is not None:
+        if templater == "placeholder":
+            cfg.setdefault("templater", {})["placeholder"] = dict(context)
+        else:
+            cfg.setdefault("templater", {}).setdefault(templater, {})["context"] = copy.deepcopy(context)
+    return cfg
